@@ -226,6 +226,45 @@ func runC02(p *core.Prog, r *core.Report, tier string) {
 			r.Check(okSrc, rule, f.String(), "currentSegmentID-source", f.Pos(), "restored id is the one parsed from the last segment file name")
 		}
 	}
+	// ---- the reused segment is written in append mode: the cache loader truncates
+	// a torn tail off that segment AFTER WAL.Open positioned the writer, so only an
+	// O_APPEND descriptor keeps later entries contiguous with the validated prefix.
+	if f := r.Need(p, tsm1, "WAL.Open"); f != nil {
+		okAppend, n := false, 0
+		for _, c := range core.AllCalls(f.Info(), f.Decl.Body, call("os.OpenFile")) {
+			if len(c.Args) != 3 {
+				continue
+			}
+			n++
+			if v := core.ConstVal(f.Info(), c.Args[1]); v != nil {
+				if iv, ok := constant.Int64Val(v); ok && iv&0x400 != 0 { // O_APPEND on linux
+					okAppend = true
+				}
+			}
+		}
+		r.Check(n >= 1 && okAppend, "wal-torn-tail", f.String(), "reopened-segment-not-append", f.Pos(), "the last segment is re-opened with O_APPEND (entries written after a torn tail was truncated stay contiguous)")
+	}
+	// ---- a snapshot and the WAL segments removed after it must cover the same
+	// writes: doWriteSnapshot closes the segment and lists the closed segments in
+	// the same critical section in which it takes the snapshot, so the snapshot
+	// returned must contain everything written before that point, i.e. every
+	// success exit of Cache.Snapshot passes the store swap.
+	if f := r.Need(p, tsm1, "Cache.Snapshot"); f != nil {
+		g := f.Graph()
+		store := core.LookupField(f.Pkg.Types, "Cache", "store")
+		core.RuleMustPassN(r, f, g, "snapshot-covers-closed-segments", "store swap", g.Assigning(store), nil)
+	}
+	if f := r.Need(p, tsm1, "Engine.doWriteSnapshot"); f != nil {
+		// the three steps happen under one hold of e.mu, in this order
+		for _, lg := range f.Graphs() {
+			cs := lg.Select(lg.Calling(call("tsdb/engine/tsm1.WAL.ClosedSegments")))
+			sn := lg.Select(lg.Calling(call("tsdb/engine/tsm1.Cache.Snapshot")))
+			if len(cs) == 0 || len(sn) == 0 {
+				continue
+			}
+			r.Check(!lg.Reach(core.After(sn[0], nil), nil, nil)[cs[0]], "snapshot-covers-closed-segments", f.String(), "segments-listed-after-snapshot", lg.Line(cs[0]), "the closed-segment list is taken before the snapshot in the same critical section")
+		}
+	}
 	if f := r.Need(p, tsm1, "WAL.newSegmentFile"); f != nil {
 		g := f.Graph()
 		idField := core.LookupField(f.Pkg.Types, "WAL", "currentSegmentID")
